@@ -890,7 +890,7 @@ func (x *exec) taskOp(t *task, i int, st scn.Step) {
 	e := &Env{Budget: budgetFor(want), CrashAt: st.Crash}
 	t.env = e
 	s.onEvent(evOpBegin, uint64(ei), nil)
-	nav := world.NewNav(x.docs[d], st.C, t.id)
+	nav := world.NavFor(x.docs[d], st.C, t.id)
 	var got Outcome
 	noShared := false
 	switch st.Op {
